@@ -57,6 +57,7 @@ def cases(tier):
     yield dict(kind="lig-mismatch", tier=tier)
     yield dict(kind="lig-multires", tier=tier)
     yield dict(kind="lig-scattered", tier=tier)
+    yield dict(kind="lig-sizes", tier=tier)
     yield dict(kind="split", tier=tier)
     yield dict(kind="split-run", tier=tier)
     yield dict(kind="split-reuse", tier=tier)
@@ -576,6 +577,44 @@ def check_lig_scattered(case):
     return viols, evals, keys
 
 
+def check_lig_sizes(case):
+    """a host with a ligand, and molecules with more (or fewer) residues than the host elsewhere in the topology, which the
+    option does not name: they come out complete, the ligand one step from its host"""
+    viols, evals, keys = [], 0, []
+    for mols, host_idx, lig_idx in (([("CH3", 1), ("W", 1), ("CH5", 1)], 0, 1), ([("CH5", 1), ("CH3", 1), ("W", 1), ("CH6", 1)], 1, 2),
+                                    ([("CH3", 1), ("W", 1), ("CH2", 1), ("CH5", 2)], 0, 1), ([("W", 1), ("CH6", 1), ("CH3", 1), ("CH5", 1)], 2, 0)):
+        sysd = dict(SYS, types=sorted({m for m, _ in mols}), molecules=mols, kwargs=dict(nrewind=2, maxiter=5))
+        for hr in (0, 2):
+            for hspec in (f"CH3-S#{hr + 1}", f"CH3#{host_idx}-#{hr + 1}"):
+                for lspec in ("W", f"W#{lig_idx}"):
+                    s2 = json.loads(json.dumps(sysd))
+                    s2["kwargs"]["ligands"] = [[hspec, lspec]]
+                    evals += 1
+                    case1 = dict(kind="ligsz1", mols=[list(m) for m in mols], host=hspec, lig=lspec)
+                    res = G.run_gen_coords(s2, Chooser([]))
+                    if res["exc"] is not None:
+                        viols.append(crash_violation(res["exc"], case1, assertion="ligand-spec-accepted", tags=["other-molecules-longer-than-host"]))
+                        continue
+                    want_atoms = G.expand_atoms(s2)
+                    atoms = res["gro"][0] if res["gro"] else []
+                    if [(x[0], x[1], x[2]) for x in atoms] != [(w[2], w[3], w[4]) for w in want_atoms]:
+                        viols.append(dict(assertion="molecule-list-unchanged", tags=["other-molecules-longer-than-host"], message=f"{mols} -lig {hspec}:{lspec}: output atoms differ", case=case1, detail={}))
+                        continue
+                    pos = {}
+                    for (mi, name, resid, resname, an), x in zip(want_atoms, atoms):
+                        pos[(mi, resid - 1)] = np.array(x[3])
+                    box = np.array(s2["box"])
+                    step = (G.DEFAULT_VOLUMES["S"] + G.DEFAULT_VOLUMES["W"]) / 2.0
+                    dist = np.linalg.norm(O.min_image(pos[(host_idx, hr)] - pos[(lig_idx, 0)], box))
+                    if not abs(dist - step) <= 2e-3 and len(viols) < 20:
+                        viols.append(dict(assertion="ligand-one-step-from-host", tags=["other-molecules-longer-than-host"],
+                                          message=f"{mols} -lig {hspec}:{lspec}: ligand molecule {lig_idx} is {dist:.4f} nm from host residue {(host_idx, hr)}, step {step}", case=case1, detail={}))
+                    if not all(np.all(np.isfinite(p)) for p in pos.values()) and len(viols) < 20:
+                        viols.append(dict(assertion="molecule-list-unchanged", tags=["other-molecules-longer-than-host"], message=f"{mols} -lig {hspec}:{lspec}: non-finite coordinates", case=case1, detail={}))
+                    keys.append(f"ligsz:{mols}:{hspec}:{lspec}")
+    return viols, evals, keys
+
+
 # ------------------------------------------------------------------ -split
 def partitions(items):
     if not items:
@@ -722,7 +761,7 @@ def check_split_run(case):
     return viols, evals, keys
 
 
-FUNCS = {"lig-scattered": check_lig_scattered, "lig-multires": check_lig_multires, "split-reuse": check_split_reuse, "lig-mismatch": check_lig_mismatch, "lig-unnamed": check_lig_unnamed, "lig-two": check_lig_two, "tags-dup": check_tags_dup, "pairdir": check_pair_directives, "tags": check_tags, "tags-multi": check_tags_multi, "start": check_start, "lig": check_lig, "split": check_split,
+FUNCS = {"lig-sizes": check_lig_sizes, "lig-scattered": check_lig_scattered, "lig-multires": check_lig_multires, "split-reuse": check_split_reuse, "lig-mismatch": check_lig_mismatch, "lig-unnamed": check_lig_unnamed, "lig-two": check_lig_two, "tags-dup": check_tags_dup, "pairdir": check_pair_directives, "tags": check_tags, "tags-multi": check_tags_multi, "start": check_start, "lig": check_lig, "split": check_split,
          "split-run": check_split_run}
 
 
@@ -730,7 +769,7 @@ def run_case(case):
     kind = case["kind"]
     if kind not in FUNCS:
         # replay of single sub-cases is done by re-running the owning family (cheap) and filtering
-        fam = {"ligsc1": "lig-scattered", "tags1": "tags", "tagsm1": "tags-multi", "pairdir1": "pairdir", "tagsdup1": "tags-dup", "lig2": "lig-two", "ligu1": "lig-unnamed", "ligm1": "lig-mismatch", "splitreuse1": "split-reuse", "ligmr1": "lig-multires", "start1": "start", "lig1": "lig", "split1": "split", "splitrun1": "split-run"}[kind]
+        fam = {"ligsz1": "lig-sizes", "ligsc1": "lig-scattered", "tags1": "tags", "tagsm1": "tags-multi", "pairdir1": "pairdir", "tagsdup1": "tags-dup", "lig2": "lig-two", "ligu1": "lig-unnamed", "ligm1": "lig-mismatch", "splitreuse1": "split-reuse", "ligmr1": "lig-multires", "start1": "start", "lig1": "lig", "split1": "split", "splitrun1": "split-run"}[kind]
         out = []
         for part in range(4 if fam == "lig" else 1):
             c = dict(kind=fam, tier="quick", part=part, directive="sphere" if case.get("key") != "rw_options" else "rw")
